@@ -29,6 +29,8 @@ MimeBytes(m) == IF m = "markdown" THEN <<116,101,120,116,47,109,97,114,107,100,1
                 ELSE <<116,101,120,116,47,112,108,97,105,110>>
 TypeBytes(t) == IF t = "binary" THEN <<98,105,110,97,114,121>> ELSE <<116,101,120,116>>
 AsciiName(n) == \A i \in 1..Len(n) : n[i] < 128
+(* an encoding name is written as the value of an option: it must be one (C02: every header matches the grammar) *)
+ValueName(n) == n # <<>> /\ \A i \in 1..Len(n) : ValChar(n[i])
 
 (* ---- initial state: the constructor writes the main header (N8) ---- *)
 WInit(e) ==
@@ -52,7 +54,7 @@ WithNL(cps, kind) ==
 (* ---- argument validity (what the specification can decide) ---- *)
 ArgsValid(st, c) ==
   /\ c.bad = ""
-  /\ c.op \in {"change", "file"} => (c.enc.given => AsciiName(c.enc.name))
+  /\ c.enc.given => ValueName(c.enc.name)
   /\ c.op = "preamble" =>
        /\ c.text # <<>>
        /\ LET e == IF c.enc.given THEN c.enc ELSE Nearest(st.decl, OpenLevel(st.prev)) IN
